@@ -65,7 +65,7 @@ func run(c *vf.Ctx) {
 
 	// ---- (a) B+ tree proofs -------------------------------------------------
 	fixed := []int{1, 2, 3, 16, 31, 32, 33, 64, 65}
-	nGen := c.N(30, 420)
+	nGen := c.N(30, 600)
 	nTrees := len(fixed)*2 + nGen
 	c.Parallel(nTrees, 14, 9000, func(i int, rng *rand.Rand) {
 		p := bpgen.GenParams{Mode: bpgen.KeyMode(i % int(bpgen.NumModes)), Rollbacks: true}
@@ -101,7 +101,7 @@ func run(c *vf.Ctx) {
 	emptyValueException(c, st)
 
 	// ---- (b) store level ----------------------------------------------------
-	nStores := c.N(8, 120)
+	nStores := c.N(8, 200)
 	c.Parallel(nStores, 8, 20000, func(i int, rng *rand.Rand) {
 		var ok bool
 		if pv := vf.Try(func() { ok = storeLevel(c, i, rng, st) }); pv != nil {
@@ -141,7 +141,7 @@ func run(c *vf.Ctx) {
 			c.Violation("panic:simpleproof", map[string]any{"total": n, "hostile": true}, "hostile list of %d items panicked: %v", n, pv)
 		}
 	})
-	nMaps := c.N(60, 600)
+	nMaps := c.N(60, 1000)
 	c.Parallel(nMaps, 14, 40000, func(i int, rng *rand.Rand) {
 		n := 1 + i%24
 		m := map[string][]byte{}
